@@ -223,7 +223,14 @@ class ExprMixin:
 
     def bytes_slice(self, v, lo, hi):
         a, n = self.slice_bounds(lo, hi, v.len)
-        return VBytes(n, lambda i, a=a, v=v: v.at(z3.simplify(i + a)))
+        # slices of slices are flattened to (root string, total offset, length) so that the same bytes reached
+        # along different routes get the same name
+        root, off = getattr(v, 'root', None) or (v, z3.IntVal(0))
+        tot = z3.simplify(off + a)
+        key = ('slice', root.key, tot.get_id(), n.get_id()) if getattr(root, 'key', None) is not None else None
+        r = VBytes(n, lambda i, a=a, v=v: v.at(z3.simplify(i + a)), key=key)
+        r.root = (root, tot)
+        return r
 
     def bytes_concat(self, a, b):
         if is_const_int(a.len) and a.len.as_long() == 0:
@@ -488,6 +495,7 @@ class ExprMixin:
                 elif isinstance(op, (ast.In, ast.NotIn)):
                     need.add(i + 1)      # `x in None` raises TypeError
             cands = [(s, list(vals))]
+            presence = []
             for i in sorted(need):
                 if not isinstance(vals[i], VOpt):
                     continue
@@ -497,6 +505,8 @@ class ExprMixin:
                         nxt.append((s1, vs))
                         continue
                     if self.spec_mode:
+                        # in specifications an ordering comparison with an absent value is false
+                        presence.append(z3.Not(vs[i].is_none()))
                         vs[i] = vs[i].some()
                         nxt.append((s1, vs))
                         continue
@@ -509,7 +519,7 @@ class ExprMixin:
                 if s1.exc is not None:
                     out.append((s1, None))
                     continue
-                conj = []
+                conj = list(presence)
                 for op, a, b in zip(e.ops, vs, vs[1:]):
                     conj.append(self.compare(s1, op, a, b, e))
                 out.append((s1, VBool(z3.simplify(z3.And(*conj)) if len(conj) > 1 else z3.simplify(conj[0]))))
